@@ -193,7 +193,7 @@ def classify(impl, want):
     return 'differs-from-published'
 
 def run(ctx, replay=None):
-    exe = prepare(ctx, ['Properties_C18'], 'h_hashfn', SRCS, ['h_hashfn.c'], cov=(replay is None))
+    exe = prepare(ctx, ['Properties_C18'], 'h_hashfn', SRCS, ['h_hashfn.c'], cov=(replay is None), wrap=('read',))
     if exe is None:
         ctx.finish('build failed')
     drv = os.path.join(OCAML, 'driver')
@@ -289,6 +289,29 @@ def run(ctx, replay=None):
                     sig['observed'] = 'stops-at-first-nul'
                 ctx.report('impl-vs-spec', sig, '%s: result is not the published algorithm applied to exactly the given bytes (%s)' % (op, sig['observed']),
                            {'op': ops[i], 'expected': want, 'actual': impl, 'length': n})
+    # read() as the file function sees it: legal short reads must not change the digest; a read that fails (EINTR) must end in a
+    # reported failure or in the right digest, never in a digest of something else.  (The model assumes full reads: these ops are
+    # compared with the independent reference only.)
+    fault_ops, fault_ref = [], []
+    for d, off, nb in [t for t in fops if t[1] >= 0 and t[2] >= 0][:: (7 if ctx.tier == 'quick' else 2)]:
+        f = cache.get(d) or materialise(d)
+        if off + nb > len(f):
+            continue
+        want = hashlib.md5(f[off:off + (nb or len(f) - off)]).hexdigest()
+        n = nb or len(f) - off
+        for mode, k in (('s', 1 if n < 200 else 4093), ('s', 32767), ('e', 1), ('e', 2), ('e', 3)):
+            fault_ops.append('md5file %s %d %d %s %d' % (d, off, nb, mode, k)); fault_ref.append((mode, want, n))
+    fl, err = run_chunks(ctx, [exe], fault_ops)
+    if err:
+        ctx.broken.append(('correspondence:harness-run-faults', err))
+    for o, (mode, want, n), got in zip(fault_ops, fault_ref, fl):
+        ctx.cov['evaluations'] += 1
+        ctx.count('file-read-%s' % ('short' if mode == 's' else 'eintr'))
+        ok = got == want or (mode == 'e' and got == 'FALSE')
+        if not ok:
+            sig = {'op': 'md5file', 'observed': classify(got, want), 'read': 'short-reads' if mode == 's' else 'interrupted-read'}
+            ctx.report('impl-vs-spec', sig, 'md5file with %s: the digest returned is not MD5 of exactly the requested range (%s)' % (sig['read'], sig['observed']),
+                       {'op': o, 'expected': want + (' or FALSE' if mode == 'e' else ''), 'actual': got, 'length': n})
     nper = len(xs) * len(OPS)
     for k in (min(102, len(ops) - 1), min(nper // 3 + 4, len(ops) - 1), max(nper - 12, 0), len(ops) - 7):
         ctx.sample({'op': ops[k][:120], 'impl': il[k], 'model': ml[k], 'spec': spec.get(k)})
